@@ -290,7 +290,8 @@ def cases(draw, tier):
 class C37(core.Prop):
     id = "C37"
     drivers = ["mpi_interp", "smpi_replay_driver"]
-    sizes = {"quick": 400, "thorough": 12000}
+    ready = True
+    sizes = {"quick": 300, "thorough": 12000}
     max_workers = 6
     technique = ("property-based testing (Hypothesis), differential: generated MPI programs run online with time-independent tracing, then "
                  "their trace replayed (smpi_replay_init/main with an overridden finalize action); per-rank end dates and final date compared")
@@ -412,6 +413,8 @@ class C37(core.Prop):
             return "zero-receive-count-dropped"
         if any(l.startswith("comm:") for l in b.labels):
             return "communicator-creation-not-traced"
+        if "coll:allgatherv" in b.labels and b.case.get("selector", "default") != "default":
+            return "allgatherv-displacements-not-traced"
         return "other"
 
 
